@@ -46,7 +46,7 @@ package guts_cli
 //@   ensures [target] fwcount == old(fwcount) + 1 ==> fwpath == path && fwlen == len(pageBuf) && osopenflag == 1      -- O_WRONLY
 //@   ensures [success] err == nil ==> fwcount == old(fwcount) + 1
 //@   ensures [snapshot] fwcount == old(fwcount) + 1 ==> (let m := metaof(pageat(pageBuf)) in fwpageid == pageat(pageBuf).id && fwtxid == m.txid && fwroot == m.root.root && fwsequence == m.root.sequence && fwfreelist == m.freelist && fwpgid == m.pgid && fwmagic == m.magic && fwversion == m.version && fwpagesize == m.pageSize && fwflags == m.flags && fwsumok == (m.checksum == msum(m)))
-//@   ensures [offset] fwcount == old(fwcount) + 1 && pageat(pageBuf).id <= 1099511627776 ==> fwoff == pageat(pageBuf).id * lastps
+//@   ensures [offset] fwcount == old(fwcount) + 1 && pageat(pageBuf).id <= 274877906944 ==> fwoff == pageat(pageBuf).id * lastps
 //@   ensures [length] fwcount == old(fwcount) + 1 ==> fwlen == lastps * (pageat(pageBuf).overflow + 1)
 //@   ensures [unwritten] fwcount == old(fwcount) ==> fwpath == old(fwpath) && fwpageid == old(fwpageid)
 
